@@ -13,7 +13,7 @@ VERIF = os.path.dirname(os.path.dirname(os.path.abspath(__file__)))
 WORK = os.environ.get('VERIF_WORK', os.path.join(VERIF, 'work'))
 BG = os.path.join(REPO, 'bindgen')
 JOBS = int(os.environ.get('VERIF_JOBS', '14'))
-MEM_KB = int(os.environ.get('VERIF_MEM_KB', str(12 * 1024 * 1024)))
+MEM_KB = int(os.environ.get('VERIF_MEM_KB', str(20 * 1024 * 1024)))
 
 ENV = dict(os.environ)
 ENV['CARGO_NET_OFFLINE'] = 'true'
@@ -262,7 +262,7 @@ def write_crate(root, name, files, features=()):
 # --------------------------------------------------------------------------
 # Kani runner
 
-CHECK_RE = re.compile(r'^Check (\d+): (\S+)\s*\n\s*- Status: (\w+)\s*\n\s*- Description: "(.*)"\s*\n(?:\s*- Location: (.*)\n)?', re.M)
+CHECK_RE = re.compile(r'^Check (\d+): (.+?)[ \t]*\n\s*- Status: (\w+)\s*\n\s*- Description: "(.*)"\s*\n(?:\s*- Location: (.*)\n)?', re.M)
 
 
 def parse_kani(out):
@@ -327,7 +327,7 @@ def sh(cmd, cwd, timeout, log=None):
     t0 = time.time()
     full = 'ulimit -v %d; exec %s' % (MEM_KB, cmd)
     try:
-        p = subprocess.Popen(['bash', '-c', full], cwd=cwd, env=ENV, stdout=subprocess.PIPE,
+        p = subprocess.Popen(['bash', '-c', full], cwd=cwd, env=ENV, stdin=subprocess.DEVNULL, stdout=subprocess.PIPE,
                              stderr=subprocess.STDOUT, text=True, start_new_session=True)
         try:
             out, _ = p.communicate(timeout=timeout)
@@ -351,7 +351,8 @@ def sh(cmd, cwd, timeout, log=None):
 def run_harness(croot, h, logdir, playback=False):
     """One `cargo kani --harness` run in its own target dir."""
     tdir = os.path.join(croot, 'target_' + h.name)
-    args = ['cargo', 'kani', '--harness', h.path or h.name] + (['--exact'] if h.path else []) + ['--target-dir', tdir]
+    args = ['cargo', 'kani', '--harness', h.path or ('proofs::' + h.name), '--exact', '--target-dir', tdir]
+    args += ['--no-assertion-reach-checks']   # otherwise CBMC emits one JSON trace per reachable check (GBs, minutes)
     if h.stubbing:
         args += ['-Z', 'stubbing']
     if playback:
@@ -359,8 +360,15 @@ def run_harness(croot, h, logdir, playback=False):
     args += list(h.extra_args)
     w = SLOTS.acquire(h.weight)
     try:
-        rc, out, dt = sh(' '.join(args), croot, h.timeout,
-                         log=os.path.join(logdir, h.name + ('.playback' if playback else '') + '.log'))
+        for attempt in range(5):
+            rc, out, dt = sh(' '.join(args), croot, h.timeout,
+                             log=os.path.join(logdir, h.name + ('.playback' if playback else '') + '.log'))
+            # sandbox flakiness seen under load: cargo's `rustc -` target probe reads garbage on stdin; retry
+            if 'to learn about target-specific information' in out or 'Failed to get cargo metadata' in out:
+                shutil.rmtree(tdir, ignore_errors=True)
+                time.sleep(0.5 + attempt)
+                continue
+            break
     finally:
         SLOTS.release(w)
         shutil.rmtree(tdir, ignore_errors=True)
@@ -376,6 +384,16 @@ def native_replay(croot, h, logdir):
     """After a playback=inplace run: execute the generated #[test]s natively in
     dev-like and release-like profiles.  Returns dict(profile -> reproduced?)."""
     res = {}
+    # the generated tests use `Vec`/`vec!`, which stub preludes may shadow: make them absolute
+    for root, _, fs in os.walk(os.path.join(croot, 'src')):
+        for f in fs:
+            p = os.path.join(root, f)
+            t = open(p).read()
+            if 'kani_concrete_playback' not in t:
+                continue
+            t = t.replace('let concrete_vals: Vec<Vec<u8>> = vec![', 'let concrete_vals: ::std::vec::Vec<::std::vec::Vec<u8>> = ::std::vec![')
+            t = re.sub(r'^(\s*)vec!\[([0-9, ]*)\](,?)\s*$', r'\1::std::vec![\2]\3', t, flags=re.M)
+            open(p, 'w').write(t)
     profiles = {
         'dev': {},
         'release': {'CARGO_PROFILE_TEST_OPT_LEVEL': '3', 'CARGO_PROFILE_TEST_DEBUG_ASSERTIONS': 'false',
@@ -456,6 +474,7 @@ def run_property(prop, tier, seed, kernels, level_text, outside, explanation):
             sys.stderr.write('[%s] %s/%s %s %.1fs (%d checks)\n' % (prop, k.name, h.name, st, r['wall'], r['checks']))
 
     violations, known_lines, vacuous, tool_errors = [], [], [], []
+    known_hits = {}
     discharged = obligations = 0
     nontrivial = 0
     samples = []
@@ -520,10 +539,7 @@ def run_property(prop, tier, seed, kernels, level_text, outside, explanation):
         if h.expect.startswith('finding:'):
             fid = h.expect.split(':', 1)[1]
             if fid in known:
-                line = 'KNOWN-FINDING: property=%s %s [%s; harness %s: %s]' % (
-                    prop, known[fid]['what'], fid, h.name, '; '.join(sorted(set(f['desc'] for f in real_fail)))[:200])
-                print(line)
-                known_lines.append(line)
+                known_hits.setdefault(fid, []).append('%s: %s' % (h.name, '; '.join(sorted(set(f['desc'] for f in real_fail)))[:160]))
                 rec['outcome'] = 'known-finding'
                 continue
             # not listed any more: treat as an ordinary failure
@@ -549,6 +565,11 @@ def run_property(prop, tier, seed, kernels, level_text, outside, explanation):
             tool_errors.append(rec)
             rec['outcome'] = 'encoding-error'
 
+    for fid in sorted(known_hits):
+        line = 'KNOWN-FINDING: property=%s %s [%s; region: %s; shown by %s]' % (
+            prop, known[fid]['what'], fid, known[fid].get('region', ''), ' | '.join(known_hits[fid])[:400])
+        print(line)
+        known_lines.append(line)
     wall = time.time() - t0
     encoded, stubs, assumptions, bounds = [], [], [], []
     for k in kernels:
